@@ -159,6 +159,16 @@ def optIdx (o : Option (Fin 8)) : String := match o with | some x => toString x.
 def optSq (o : Option Sq) : String := match o with | some x => toString x.val | none => "!"
 def b01 (b : Bool) : String := if b then "1" else "0"
 
+/-- the operator impls of `BitBoard` (`& | ^ ! *`, wrapping multiplication) on two fixed masks, as the harness combines them -/
+def bbAlg (x : BB) : BB :=
+  let c : BB := 0x00ff00f00f0f3c5a#64
+  let d : BB := 0x8100004224000081#64
+  (x &&& c) ^^^ (x ||| d) ^^^ (~~~x) ^^^ (x * 3#64)
+/-- `Debug for BitBoard`: `BitBoard(0x%016x)` -/
+def bbDebug (x : BB) : Str :=
+  let h := (Nat.toDigits 16 x.toNat)
+  "BitBoard(0x".toList ++ List.replicate (16 - h.length) '0' ++ h ++ [')']
+
 def primBlob (kind : String) : String :=
   match kind with
   | "square" => ";".intercalate ((List.range 71).map fun i =>
@@ -199,6 +209,13 @@ def primBlob (kind : String) : String :=
       [s!"A{a.idx}{b.idx}={(a.add b).idx}", s!"S{a.idx}{b.idx}={(a.sub b).idx}"])
   | "bbfr" => ":".intercalate (((List.finRange 8).map fun f => hexBB (bbOfFile f)) ++ ((List.finRange 8).map fun r => hexBB (bbOfRank r)))
   | "offsets" => ";".intercalate (allSq.flatMap fun a => allSq.map fun b => let o := offsets a b; s!"{o.1},{o.2}")
+  | "misc" =>
+    -- `BoardBuilder::default()` is the parsed standard start FEN; its Display, its cell array, `Color::iter`, `PieceType::iter`,
+    -- `Game::default().as_fen()`
+    let us (t : Str) : String := String.ofList (t.map fun c => if c = ' ' then '_' else c)
+    match parseFen startFen with
+    | .ok bb => s!"{us (printFen bb)}:{placement bb.pieces}:wb:PNBRQK:{us (printFen bb)}"
+    | .error _ => "?"
   | _ => "?"
 
 def tblBlob (name : String) : String :=
@@ -423,7 +440,7 @@ def runOp (K : Keys) (committedKeys : String) (lite : Bool) (skipM0 : Bool) (reh
   | "prim" => (sess, s!"v={primBlob (arg 1)} ## ")
   | "bb" =>
     let b := parseBB (arg 1)
-    (sess, s!"list={commaOr ((toList b).map fun s => toString s.val)} cnt={popcount b} lo={sqIdx (lowest b)} hi={sqIdx (highest b)} grid={hexText (showBB b)} ## ")
+    (sess, s!"list={commaOr ((toList b).map fun s => toString s.val)} cnt={popcount b} lo={sqIdx (lowest b)} hi={sqIdx (highest b)} grid={hexText (showBB b)} alg={hexBB (bbAlg b)} dbg={hexText (bbDebug b)} ## ")
   | "render" => (sess, withBoard fun b => s!"s={hexText b.renderStraight} f={hexText b.renderFlipped} d=1 ## ")
   | "gstat" =>
     let all : List GStatus := [.ongoing, .drawOffered .white, .drawOffered .black, .checkMated .white, .checkMated .black,
